@@ -513,3 +513,168 @@ theorem fv_subset_of_wellScoped {Γ Δ t} (h : WellScoped Γ Δ t) : aggFree t =
       · exact h
 
 end HailVerif.ExprIR
+
+namespace HailVerif.ExprIR
+
+/-! ## one CSE step at the specification level: `let x = v in t[x/v] ≡ t` -/
+
+theorem fv_subset_names (t : IR) : ∀ y ∈ fv t, y ∈ names t := by
+  induction t <;> intro y hy <;>
+    simp only [fv, List.mem_append, mem_remove, List.mem_singleton, List.not_mem_nil] at hy <;>
+    simp only [names, List.mem_append, List.mem_cons]
+  case ref => exact Or.inl hy
+  case cast ih | ascribe ih | isNA ih | un ih | arrayLen ih | toArray ih | toStream ih | getField ih | getTupleElement ih
+    | toSet ih | toDict ih => exact ih y hy
+  case bin iha ihb | cmp iha ihb | acons iha ihb | arrayRef iha ihb | scons iha ihb | insertField iha ihb | tcons iha ihb
+    | dictGet iha ihb =>
+    rcases hy with hy | hy
+    · exact Or.inl (iha y hy)
+    · exact Or.inr (ihb y hy)
+  case ite iha ihb ihc =>
+    rcases hy with (hy | hy) | hy
+    · exact Or.inl (Or.inl (iha y hy))
+    · exact Or.inl (Or.inr (ihb y hy))
+    · exact Or.inr (ihc y hy)
+  case let_ iha ihb | streamMap iha ihb | streamFilter iha ihb =>
+    rcases hy with hy | hy
+    · exact Or.inr (Or.inl (iha y hy))
+    · exact Or.inr (Or.inr (ihb y hy.1))
+  case streamFold iha ihz ihb =>
+    rcases hy with (hy | hy) | hy
+    · exact Or.inr (Or.inr (Or.inl (Or.inl (iha y hy))))
+    · exact Or.inr (Or.inr (Or.inl (Or.inr (ihz y hy))))
+    · exact Or.inr (Or.inr (Or.inr (ihb y hy.1.1)))
+  case streamAgg iha ihq =>
+    rcases hy with hy | hy
+    · exact Or.inr (Or.inl (iha y hy))
+    · exact Or.inr (Or.inr (ihq y hy))
+  case aggLet _ ihb => exact Or.inr (Or.inr (ihb y hy))
+  case aggFilter _ ihb => exact Or.inr (ihb y hy)
+
+theorem aggFree_abstractAt (x : Name) (v : IR) (F : List Name) (t : IR) :
+    aggFree t = true → aggFree (abstractAt x v F t) = true := by
+  induction t
+  case streamAgg | aggLet | aggFilter | agg => intro h; simp [aggFree] at h
+  case ref | i32 | i64 | f32 | f64 | str | bool | na | anil | snil | tnil =>
+    intro _; simp only [abstractAt]; split <;> simp [aggFree]
+  case cast | ascribe | isNA | un | arrayLen | toArray | toStream | getField | getTupleElement | toSet | toDict =>
+    rename_i ih; intro h; simp only [aggFree] at h; simp only [abstractAt]; split <;> simp [aggFree, ih h]
+  case bin | cmp | acons | arrayRef | scons | insertField | tcons | dictGet =>
+    rename_i iha ihb; intro h; simp only [aggFree, Bool.and_eq_true] at h
+    simp only [abstractAt]; split <;> simp [aggFree, iha h.1, ihb h.2]
+  case ite iha ihb ihc =>
+    intro h; simp only [aggFree, Bool.and_eq_true] at h
+    simp only [abstractAt]; split <;> simp [aggFree, iha h.1.1, ihb h.1.2, ihc h.2]
+  case let_ iha ihb | streamMap iha ihb | streamFilter iha ihb =>
+    intro h; simp only [aggFree, Bool.and_eq_true] at h
+    simp only [abstractAt]; split
+    · simp [aggFree]
+    · simp only [aggFree, iha h.1, Bool.true_and]; split
+      · exact h.2
+      · exact ihb h.2
+  case streamFold iha ihz ihb =>
+    intro h; simp only [aggFree, Bool.and_eq_true] at h
+    simp only [abstractAt]; split
+    · simp [aggFree]
+    · simp only [aggFree, iha h.1.1, ihz h.1.2, Bool.true_and]; split
+      · exact h.2
+      · exact ihb h.2
+
+theorem subst_abstractAt (x : Name) (v : IR) (F : List Name) (t : IR) :
+    x ∉ names t → subst x v (abstractAt x v F t) = t := by
+  induction t
+  case streamAgg | aggLet | aggFilter | agg => intro _; simp [abstractAt, subst]
+  case ref y =>
+    intro h; simp only [names, List.mem_singleton] at h
+    simp only [abstractAt]; split
+    · rename_i e; simp [subst, e]
+    · simp [subst, Ne.symm h]
+  case i32 | i64 | f32 | f64 | str | bool | na | anil | snil | tnil =>
+    intro _; simp only [abstractAt]; split
+    · rename_i e; simp [subst, e]
+    · simp [subst]
+  case cast | ascribe | isNA | un | arrayLen | toArray | toStream | getField | getTupleElement | toSet | toDict =>
+    rename_i ih; intro h; simp only [names] at h
+    simp only [abstractAt]; split
+    · rename_i e; simp [subst, e]
+    · simp [subst, ih h]
+  case bin | cmp | acons | arrayRef | scons | insertField | tcons | dictGet =>
+    rename_i iha ihb; intro h; simp only [names, List.mem_append, not_or] at h
+    simp only [abstractAt]; split
+    · rename_i e; simp [subst, e]
+    · simp [subst, iha h.1, ihb h.2]
+  case ite iha ihb ihc =>
+    intro h; simp only [names, List.mem_append, not_or] at h
+    simp only [abstractAt]; split
+    · rename_i e; simp [subst, e]
+    · simp [subst, iha h.1.1, ihb h.1.2, ihc h.2]
+  case let_ y a b iha ihb | streamMap y a b iha ihb | streamFilter y a b iha ihb =>
+    intro h; simp only [names, List.mem_cons, List.mem_append, not_or] at h
+    obtain ⟨hxy, hxa, hxb⟩ := h
+    have hyx : ¬ y = x := fun e => hxy e.symm
+    simp only [abstractAt]; split
+    · rename_i e; simp [subst, e]
+    · simp only [subst, iha hxa, hyx, if_false]
+      split
+      · rw [subst_of_not_free x v b (fun hm => hxb (fv_subset_names b x hm))]
+      · rw [ihb hxb]
+  case streamFold acc w a z b iha ihz ihb =>
+    intro h; simp only [names, List.mem_cons, List.mem_append, not_or] at h
+    obtain ⟨hxacc, hxw, ⟨hxa, hxz⟩, hxb⟩ := h
+    have h1 : ¬ (acc = x ∨ w = x) := by
+      intro e; rcases e with e | e
+      · exact hxacc e.symm
+      · exact hxw e.symm
+    simp only [abstractAt]; split
+    · rename_i e; simp [subst, e]
+    · simp only [subst, iha hxa, ihz hxz, h1, if_false]
+      split
+      · rw [subst_of_not_free x v b (fun hm => hxb (fv_subset_names b x hm))]
+      · rw [ihb hxb]
+
+theorem substOk_abstractAt (x : Name) (v : IR) (F : List Name) (t : IR) :
+    aggFree t = true → x ∉ names t → substOk x F (abstractAt x v F t) = true := by
+  induction t
+  case streamAgg | aggLet | aggFilter | agg => intro h; simp [aggFree] at h
+  case ref | i32 | i64 | f32 | f64 | str | bool | na | anil | snil | tnil =>
+    intro _ _; simp only [abstractAt]; split <;> simp [substOk]
+  case cast | ascribe | isNA | un | arrayLen | toArray | toStream | getField | getTupleElement | toSet | toDict =>
+    rename_i ih; intro ha hx; simp only [aggFree] at ha; simp only [names] at hx
+    simp only [abstractAt]; split <;> simp [substOk, ih ha hx]
+  case bin | cmp | acons | arrayRef | scons | insertField | tcons | dictGet =>
+    rename_i iha ihb; intro ha hx
+    simp only [aggFree, Bool.and_eq_true] at ha; simp only [names, List.mem_append, not_or] at hx
+    simp only [abstractAt]; split <;> simp [substOk, iha ha.1 hx.1, ihb ha.2 hx.2]
+  case ite iha ihb ihc =>
+    intro ha hx
+    simp only [aggFree, Bool.and_eq_true] at ha; simp only [names, List.mem_append, not_or] at hx
+    simp only [abstractAt]; split <;> simp [substOk, iha ha.1.1 hx.1.1, ihb ha.1.2 hx.1.2, ihc ha.2 hx.2]
+  case let_ y a b iha ihb | streamMap y a b iha ihb | streamFilter y a b iha ihb =>
+    intro ha hx
+    simp only [aggFree, Bool.and_eq_true] at ha
+    simp only [names, List.mem_cons, List.mem_append, not_or] at hx
+    obtain ⟨hxy, hxa, hxb⟩ := hx
+    simp only [abstractAt]; split
+    · simp [substOk]
+    · simp only [substOk, iha ha.1 hxa, Bool.true_and, Bool.and_eq_true, Bool.or_eq_true, decide_eq_true_eq]
+      split
+      · rename_i hyF
+        exact ⟨ha.2, Or.inl (Or.inr (fun hm => hxb (fv_subset_names b x hm)))⟩
+      · rename_i hyF
+        exact ⟨aggFree_abstractAt x v F b ha.2, Or.inr ⟨hyF, ihb ha.2 hxb⟩⟩
+  case streamFold acc w a z b iha ihz ihb =>
+    intro ha hx
+    simp only [aggFree, Bool.and_eq_true] at ha
+    simp only [names, List.mem_cons, List.mem_append, not_or] at hx
+    obtain ⟨hxacc, hxw, ⟨hxa, hxz⟩, hxb⟩ := hx
+    simp only [abstractAt]; split
+    · simp [substOk]
+    · simp only [substOk, iha ha.1.1 hxa, ihz ha.1.2 hxz, Bool.true_and, Bool.and_eq_true, Bool.or_eq_true,
+        decide_eq_true_eq]
+      split
+      · exact ⟨ha.2, Or.inl (Or.inr (fun hm => hxb (fv_subset_names b x hm)))⟩
+      · rename_i hF
+        simp only [not_or] at hF
+        exact ⟨aggFree_abstractAt x v F b ha.2, Or.inr ⟨⟨hF.1, hF.2⟩, ihb ha.2 hxb⟩⟩
+
+end HailVerif.ExprIR
